@@ -88,7 +88,7 @@ Theorem rejects_h0_offdiag c :
             (listed e \/ (e = UnboundLocalError /\ custom c = true)).
 Proof.
   intros [i [j [Hi [Hj [Hs Hb]]]]]. apply fire_listed with (e0 := ValueError).
-  eapply (nth_fire c 22); [reflexivity|].
+  eapply (nth_fire c 23); [reflexivity|].
   apply existsb_exists. exists (i, j). split; [apply in_all_pairs; assumption|].
   cbn [fst snd]. rewrite Hs, Hb. reflexivity.
 Qed.
@@ -135,7 +135,7 @@ Theorem rejects_mask_asym c :
             (listed e \/ (e = UnboundLocalError /\ custom c = true)).
 Proof.
   intros [Hh [Hq [m [Hin Hm]]]]. apply fire_listed with (e0 := ValueError).
-  eapply (nth_fire c 27); [reflexivity|].
+  eapply (nth_fire c 29); [reflexivity|].
   rewrite Hq. cbn [negb andb]. apply existsb_exists. exists m. split; [exact Hin|].
   rewrite Hh, Hm. cbn. apply orb_true_r.
 Qed.
@@ -146,7 +146,7 @@ Theorem rejects_mask_equal c :
             (listed e \/ (e = UnboundLocalError /\ custom c = true)).
 Proof.
   intros [Hq [m [Hin Hm]]]. apply fire_listed with (e0 := ValueError).
-  eapply (nth_fire c 28); [reflexivity|].
+  eapply (nth_fire c 30); [reflexivity|].
   rewrite Hq. cbn [negb andb]. apply existsb_exists. exists m. split; assumption.
 Qed.
 
@@ -183,17 +183,115 @@ Proof.
     eapply (nth_fire c 18); [reflexivity|]. rewrite Hb. cbn [andb].
     destruct Hs as [-> | ->]; [reflexivity|apply orb_true_r].
   - apply fire_listed with (e0 := NotImplementedError).
-    eapply (nth_fire c 25); [reflexivity|]. rewrite Ha, Hh. reflexivity.
+    eapply (nth_fire c 27); [reflexivity|]. rewrite Ha, Hh. reflexivity.
   - apply fire_listed with (e0 := NotImplementedError).
     eapply (nth_fire c 13); [reflexivity|]. rewrite Hi, Hh, Hc, Hd. reflexivity.
   - apply fire_listed with (e0 := ValueError).
     eapply (nth_fire c 20); [reflexivity|]. rewrite Hf. cbn [is_array].
     apply Nat.eqb_neq in Hn. rewrite Hn. reflexivity.
   - apply fire_listed with (e0 := ValueError).
-    eapply (nth_fire c 24); [reflexivity|]. rewrite Hi. cbn [andb].
+    eapply (nth_fire c 26); [reflexivity|]. rewrite Hi. cbn [andb].
     apply existsb_exists. exists (c_nblocks c - 1). split; [exact Hk|apply Nat.eqb_refl].
   - apply fire_listed with (e0 := NotImplementedError).
     eapply (nth_fire c 21); [reflexivity|]. rewrite Hn, Hl, Hc. reflexivity.
+Qed.
+
+(* malformed containers and values *)
+Inductive defect_container (c : call) : Prop :=
+| DcUnsupported : c_format c = FUnsupported -> defect_container c
+| DcSymbolsMissing : c_format c = FSympyExpr -> c_symbols_missing c = true -> defect_container c
+| DcKeysNonCommutative : c_format c = FDictMonomial -> c_keys c = KeysNonCommutative -> defect_container c
+| DcKeysNotMonomial : c_format c = FDictMonomial -> c_keys c = KeysNotMonomial -> defect_container c
+| DcNonSquare : c_preblocked c = true -> c_blocks_square c = false -> defect_container c
+| DcRagged0 : c_preblocked c = true -> c_ragged c (zero_order c) = true -> defect_container c
+| DcInvalidOperator : c_invalid_operator c = true -> defect_container c
+| DcZeroDiagonal : (forall i, i < c_nblocks c -> c_h0_diag_zero c i = true) -> defect_container c
+| DcMaskNotArray m : c_second_quant c = false -> In m (fd_masks (fd_eff c)) -> m_is_ndarray m = false ->
+                     defect_container c.
+
+Theorem rejects_container c :
+  defect_container c ->
+  exists e, validate c = Reject e AtDefinition /\
+            (listed e \/ (e = UnboundLocalError /\ custom c = true)).
+Proof.
+  intros [Hf|Hf Hs|Hf Hk|Hf Hk|Hb Hs|Hb Hr|Ho|Hz|m Hq Hin Hm].
+  - apply fire_listed with (e0 := TypeError). eapply (nth_fire c 2); [reflexivity|].
+    unfold fmt_is. rewrite Hf. reflexivity.
+  - apply fire_listed with (e0 := ValueError). eapply (nth_fire c 3); [reflexivity|].
+    unfold fmt_is. rewrite Hf, Hs. reflexivity.
+  - apply fire_listed with (e0 := ValueError). eapply (nth_fire c 4); [reflexivity|].
+    unfold fmt_is. rewrite Hf, Hk. reflexivity.
+  - apply fire_listed with (e0 := ValueError). eapply (nth_fire c 5); [reflexivity|].
+    unfold fmt_is. rewrite Hf, Hk. reflexivity.
+  - apply fire_listed with (e0 := ValueError). eapply (nth_fire c 19); [reflexivity|].
+    rewrite Hb, Hs. reflexivity.
+  - apply fire_listed with (e0 := ValueError). eapply (nth_fire c 22); [reflexivity|].
+    rewrite Hb, Hr. reflexivity.
+  - apply fire_listed with (e0 := ValueError). eapply (nth_fire c 25); [reflexivity|]. exact Ho.
+  - apply fire_listed with (e0 := ValueError). eapply (nth_fire c 24); [reflexivity|].
+    apply forallb_forall. intros i Hi. apply in_seq in Hi. apply Hz. lia.
+  - apply fire_listed with (e0 := ValueError). eapply (nth_fire c 29); [reflexivity|].
+    rewrite Hq. cbn [negb andb]. apply existsb_exists. exists m. split; [exact Hin|].
+    rewrite Hm. reflexivity.
+Qed.
+
+(* malformed subspace_eigenvectors entries and the implicit-mode restrictions *)
+Inductive defect_vectors (c : call) (ev : eigvecs) : Prop :=
+| DvPairLen : ev_pair_len_ok ev = false -> defect_vectors c ev
+| DvShapes : ev_shapes_ok ev = false -> defect_vectors c ev
+| DvImplicitBlocked : ev_complete ev = false -> c_preblocked c = true -> defect_vectors c ev
+| DvImplicitSymbolic : ev_complete ev = false -> c_h0_symbolic c = true -> defect_vectors c ev
+| DvImplicitDim : ev_complete ev = false -> ev_dim_matches ev = false -> defect_vectors c ev
+| DvImplicitTypes : ev_complete ev = false -> custom c = false -> ev_all_ndarray ev = false ->
+                    defect_vectors c ev.
+
+Theorem rejects_vectors c ev :
+  c_eigvecs c = Some ev -> defect_vectors c ev ->
+  exists e, validate c = Reject e AtDefinition /\
+            (listed e \/ (e = UnboundLocalError /\ custom c = true)).
+Proof.
+  intros He [H|H|Hc H|Hc H|Hc H|Hc Hcu H].
+  - apply fire_listed with (e0 := ValueError). eapply (nth_fire c 8); [reflexivity|].
+    unfold evb. rewrite He, H. reflexivity.
+  - apply fire_listed with (e0 := ValueError). eapply (nth_fire c 9); [reflexivity|].
+    unfold evb. rewrite He, H. reflexivity.
+  - apply fire_listed with (e0 := ValueError). eapply (nth_fire c 11); [reflexivity|].
+    unfold implicit, evb. rewrite He, Hc, H. reflexivity.
+  - apply fire_listed with (e0 := ValueError). eapply (nth_fire c 12); [reflexivity|].
+    unfold implicit, evb. rewrite He, Hc, H. reflexivity.
+  - apply fire_listed with (e0 := ValueError). eapply (nth_fire c 14); [reflexivity|].
+    unfold implicit, evb. rewrite He, Hc, H. reflexivity.
+  - apply fire_listed with (e0 := TypeError). eapply (nth_fire c 15); [reflexivity|].
+    unfold implicit, evb. rewrite He, Hc, Hcu, H. reflexivity.
+Qed.
+
+(* the NotImplementedError "implicit KPM solver does not support distinct left and right subspace
+   vectors" can never be the first test to fire: pairs need hermitian=False (else the
+   Hermitian-pairs test fires) and non-Hermitian implicit KPM is rejected just before *)
+Theorem kpm_pairs_shadowed c :
+  implicit c && negb (custom c) && negb (c_direct_solver c) && evb c ev_has_pair = true ->
+  evb c (fun ev => c_hermitian c && ev_has_pair ev) = true \/
+  implicit c && negb (c_hermitian c) && negb (custom c) && negb (c_direct_solver c) = true.
+Proof.
+  intro H. apply andb_prop in H. destruct H as [H Hp]. apply andb_prop in H. destruct H as [H Hd].
+  apply andb_prop in H. destruct H as [Hi Hc].
+  destruct (c_hermitian c) eqn:Eh.
+  - left. unfold evb in *. destruct (c_eigvecs c); [exact Hp|discriminate].
+  - right. rewrite Hi, Hc, Hd. reflexivity.
+Qed.
+
+(* a ragged grid of a later order: rejected at the first evaluation of that order *)
+Theorem rejects_ragged_term c n :
+  c_preblocked c = true -> c_ragged c n = true ->
+  (exists e, validate c = Reject e AtDefinition /\
+             (listed e \/ (e = UnboundLocalError /\ custom c = true))) \/
+  (validate c = Accept /\ exists e, on_first_use c (UseTerm n) = Reject e AtFirstUse /\ e = ValueError).
+Proof.
+  intros Hb Hr. destruct (validate c) as [|e s] eqn:E.
+  - right. split; [reflexivity|]. unfold on_first_use. rewrite Hb, Hr. cbn [andb].
+    destruct (fmt_is c FSympyExpr && c_hermitian c && tri_is_no (c_term_herm c n)); eauto.
+  - left. destruct (validate_reject _ _ _ E) as [-> Hin]. exists e. split; [reflexivity|].
+    destruct (checks_exn _ _ _ Hin) as [Hl|[He Hb']]; [left; exact Hl|right; auto].
 Qed.
 
 (* the first test of the function: custom solver together with full diagonalisation is the
@@ -272,7 +370,8 @@ Proof.
   right. unfold on_first_use in E. destruct x.
   - destruct (legacy c && _); [inversion E; eauto|].
     destruct (diag_pair c i j && _ && _); [inversion E; eauto|discriminate].
-  - destruct (fmt_is c FSympyExpr && _ && _); [inversion E; eauto|discriminate].
+  - destruct (fmt_is c FSympyExpr && _ && _); [inversion E; eauto|].
+    destruct (c_preblocked c && c_ragged c n); [inversion E; eauto|discriminate].
 Qed.
 
 Theorem life_no_later c pre n us post u e s :
@@ -318,6 +417,8 @@ Record Wellposed (c : call) : Prop := {
   wp_h0_off : forall i j, i < c_nblocks c -> j < c_nblocks c -> scanned c i j = true ->
               c_h0_off c i j <> BNonzero;
   wp_h0_diag : exists i, i < c_nblocks c /\ c_h0_diag_zero c i = false;
+  wp_operator : c_invalid_operator c = false;
+  wp_ragged0 : c_preblocked c = true -> c_ragged c (zero_order c) = false;
   wp_legacy : c_solver_arity c = Some 1 -> c_hermitian c = true;
   wp_custom_fd : custom c = true -> implicit c = false -> fd_keys (fd_eff c) = [];
   wp_masks : c_second_quant c = false -> forall m, In m (fd_masks (fd_eff c)) ->
@@ -402,6 +503,7 @@ Proof.
   - destruct (c_nblocks c =? 1) eqn:En; [|reflexivity]. apply Nat.eqb_eq in En.
     destruct (custom c) eqn:Ec; [|apply andb_false_r].
     rewrite (wp_single_custom _ W Ec En). reflexivity.
+  - destruct (c_preblocked c) eqn:Eb; [|reflexivity]. rewrite (wp_ragged0 _ W Eb). reflexivity.
   - apply existsb_false. intros [i j] Hin. cbn [fst snd].
     destruct (in_all_pairs_inv _ _ _ Hin) as [Hi Hj].
     destruct (scanned c i j) eqn:Es; [|reflexivity].
@@ -410,6 +512,7 @@ Proof.
   - destruct (wp_h0_diag _ W) as [i [Hi Hz]].
     destruct (forallb (c_h0_diag_zero c) (seq 0 (c_nblocks c))) eqn:E; [|reflexivity].
     rewrite forallb_forall in E. rewrite (E i) in Hz; [discriminate|apply in_seq; lia].
+  - apply (wp_operator _ W).
   - unfold implicit, evb. destruct (c_eigvecs c) as [ev|] eqn:Ee; [|reflexivity].
     destruct (ev_complete ev) eqn:Ec; [reflexivity|].
     destruct (wp_implicit _ W ev Ee Ec) as [_ [_ [_ [_ H]]]]. cbn [negb andb].
@@ -434,7 +537,8 @@ Definition Wellposed_lazy (c : call) (u : use) : Prop :=
     (legacy c = true -> (i = 0 /\ j = 1) \/ (i = 1 /\ j = 0)) /\
     (diag_pair c i j = true -> i <> j -> c_pair_shares c i j = false)
   | UseTerm n =>
-    c_format c = FSympyExpr -> c_hermitian c = true -> c_term_herm c n <> No
+    (c_format c = FSympyExpr -> c_hermitian c = true -> c_term_herm c n <> No) /\
+    (c_preblocked c = true -> c_ragged c n = false)
   end.
 
 Theorem accepts_wellposed_lazy c u : Wellposed_lazy c u -> on_first_use c u = Accept.
@@ -447,7 +551,11 @@ Proof.
     + cbn. destruct (diag_pair c i j) eqn:Ed; [|reflexivity].
       destruct (i =? j) eqn:Eij; [reflexivity|]. apply Nat.eqb_neq in Eij.
       rewrite (Hs eq_refl Eij). reflexivity.
-  - intro H. unfold fmt_is. destruct (c_format c) eqn:Ef; try reflexivity.
+  - intros [H Hr].
+    assert (Hrag : c_preblocked c && c_ragged c n = false).
+    { destruct (c_preblocked c) eqn:Eb; [|reflexivity]. rewrite (Hr eq_refl). reflexivity. }
+    rewrite Hrag.
+    unfold fmt_is. destruct (c_format c) eqn:Ef; try reflexivity.
     destruct (c_hermitian c) eqn:Eh; [|reflexivity].
     specialize (H eq_refl eq_refl). destruct (c_term_herm c n); try reflexivity. congruence.
 Qed.
